@@ -355,7 +355,8 @@ bloom_filter_alloc<A> bloom_filter_alloc<A>::internal_deserialize_or_wrap(void* 
 
   const bool is_empty = (flags & EMPTY_FLAG_MASK) != 0;
 
-  ensure_minimum_memory(length_bytes, prelongs * sizeof(uint64_t));
+  // the fields read below do not depend on the preamble size stored in the image
+  ensure_minimum_memory(length_bytes, (is_empty ? PREAMBLE_LONGS_EMPTY : PREAMBLE_LONGS_STANDARD) * sizeof(uint64_t));
 
   uint16_t num_hashes;
   ptr += copy_from_mem(ptr, num_hashes);
@@ -366,17 +367,29 @@ bloom_filter_alloc<A> bloom_filter_alloc<A>::internal_deserialize_or_wrap(void* 
   uint32_t num_longs;
   ptr += copy_from_mem(ptr, num_longs); // sized in java longs
   ptr += sizeof(uint32_t); // unused 32 bits follow
+  const uint64_t num_bits = static_cast<uint64_t>(num_longs) << 6;
 
   // if empty, stop reading
   if (wrap && is_empty && !read_only) {
     throw std::invalid_argument("Cannot wrap an empty filter for writing");
   } else if (is_empty) {
-    return bloom_filter_alloc<A>(num_longs << 6, num_hashes, seed, allocator);
+    return bloom_filter_alloc<A>(num_bits, num_hashes, seed, allocator);
+  }
+
+  if (num_hashes == 0) {
+    throw std::invalid_argument("Possible corruption: Must have at least 1 hash function");
+  }
+  if (num_bits == 0 || num_bits > MAX_FILTER_SIZE_BITS) {
+    throw std::invalid_argument("Possible corruption: Invalid bit array length: " + std::to_string(num_longs));
   }
 
   uint64_t num_bits_set;
   ptr += copy_from_mem(ptr, num_bits_set);
   const bool is_dirty = (num_bits_set == DIRTY_BITS_VALUE);
+
+  // the whole bit array must be present, whether it is copied or used in place
+  const uint64_t num_bytes = num_bits >> 3;
+  ensure_minimum_memory(end_ptr - ptr, num_bytes);
 
   uint8_t* bit_array;
   uint8_t* memory;
@@ -386,8 +399,6 @@ bloom_filter_alloc<A> bloom_filter_alloc<A>::internal_deserialize_or_wrap(void* 
   } else {
     // allocate memory
     memory = nullptr;
-    const uint64_t num_bytes = num_longs << 3;
-    ensure_minimum_memory(end_ptr - ptr, num_bytes);
     AllocUint8 alloc(allocator);
     bit_array = alloc.allocate(num_bytes);
     if (bit_array == nullptr) {
@@ -397,7 +408,7 @@ bloom_filter_alloc<A> bloom_filter_alloc<A>::internal_deserialize_or_wrap(void* 
   }
 
   // pass to constructor -- !wrap == is_owned_
-  return bloom_filter_alloc<A>(seed, num_hashes, is_dirty, !wrap, read_only, num_longs << 6, num_bits_set, bit_array, memory, allocator);
+  return bloom_filter_alloc<A>(seed, num_hashes, is_dirty, !wrap, read_only, num_bits, num_bits_set, bit_array, memory, allocator);
 }
 
 template<typename A>
